@@ -51,6 +51,11 @@ def make_scratch(repo, dest):
             shutil.copy(os.path.join(NATIVE_DIR, f), os.path.join(dest, 'tests', f))
     if os.path.isdir(os.path.join(NATIVE_DIR, 'common')):
         shutil.copytree(os.path.join(NATIVE_DIR, 'common'), os.path.join(dest, 'tests', 'common'))
+    # cargo decides staleness by mtime: a copy that preserves old mtimes after a newer (e.g. patched) copy was built
+    # at the same path would silently reuse the stale build, so every copied source file gets a fresh mtime
+    for root, _, files in os.walk(dest):
+        for fn in files:
+            os.utime(os.path.join(root, fn), None)
     os.makedirs(os.path.join(dest, '.cargo'), exist_ok=True)
     open(os.path.join(dest, '.cargo', 'config.toml'), 'w').write('[net]\noffline = true\n')
 
